@@ -15,9 +15,12 @@ Mirrors, for a cluster of nodes each holding a list of connections:
   and the `OnUnsubscribe` callback runs; **whether or not the channel was subscribed**, an unsubscribe push carrying
   that channel name is then written to the connection (quirk of the real code, kept).
 
-`Mode.current` is the code as it is: the channel string is used as a map key, so `""` names no subscription.
-`Mode.fixed` is the documented behaviour ("If a channel is empty string then user will be unsubscribed from all
-channels") as implemented by `props/C28/proposed_fix.diff`: for `""` the hub iterates over the connection's channels.
+`Mode.fixed` (the default, `Inhabited Mode`) is the code as it is since /repo commit 770c28ff
+("fix: Node.Unsubscribe with an empty channel unsubscribes from all channels" = `props/C28/proposed_fix.diff`):
+hub.go `unsubscribeConnection` iterates over `c.Channels()` for an empty channel name, which is the documented
+behaviour ("If a channel is empty string then user will be unsubscribed from all channels").
+`Mode.preFix` is the code before that commit: the channel string was used as a map key, so `""` named no subscription
+(finding C28-1, kept so that the old defect stays stated and a regression can be recognised).
 -/
 namespace CentrifugeVerif.ControlUnsub
 open CentrifugeVerif.Gen.ControlCodec
@@ -46,9 +49,12 @@ inductive Ev where
   deriving DecidableEq, Repr
 
 inductive Mode where
-  | current
+  | preFix
   | fixed
   deriving DecidableEq, Repr
+
+/-- the code as it is -/
+instance : Inhabited Mode := ⟨.fixed⟩
 
 /-- the per-channel effects of removing subscription `s` of connection `cid` with unsubscribe `u`
 (client.go `unsubscribe`: removePresence, publishLeave, unsubscribeHandler; then `sendUnsubscribe`) -/
@@ -57,7 +63,7 @@ def effects (cid : String) (u : GUnsubscribe) (s : Sub) : List Ev :=
   (if s.emitJoinLeave then [Ev.leave cid s.ch] else []) ++
   [Ev.callback cid s.ch u.Code u.Reason, Ev.push cid s.ch u.Code u.Reason]
 
-/-- `Client.Unsubscribe(ch, u)` as it is today. -/
+/-- `Client.Unsubscribe(ch, u)` (client.go; unchanged by the fix). -/
 def unsubOne (c : Conn) (ch : String) (u : GUnsubscribe) : Conn × List Ev :=
   match c.subs.find? (fun s => s.ch == ch) with
   | some s => ({ c with subs := c.subs.filter (fun s => s.ch != ch) }, effects c.id u s)
@@ -72,10 +78,11 @@ def unsubList (c : Conn) (u : GUnsubscribe) : List String → Conn × List Ev
     (r2.1, r1.2 ++ r2.2)
 
 /-- what the hub does with one addressed connection.
-`current`: `c.Unsubscribe(ch, u)`.  `fixed`: for `ch = ""` the same call for every channel of `c.Channels()`. -/
+`fixed` = hub.go `unsubscribeConnection`: `c.Unsubscribe(ch, u)`, and for `ch = ""` that call for every channel of
+`c.Channels()`.  `preFix`: always `c.Unsubscribe(ch, u)`. -/
 def clientUnsubscribe (m : Mode) (c : Conn) (ch : String) (u : GUnsubscribe) : Conn × List Ev :=
   match m with
-  | .current => unsubOne c ch u
+  | .preFix => unsubOne c ch u
   | .fixed => if ch == "" then unsubList c u (c.subs.map (·.ch)) else unsubOne c ch u
 
 /-- label-filter matching is a parameter (`hub.go matchLabelFilter` = `filter.Match`, property C15). -/
